@@ -701,6 +701,15 @@ func run(c *vf.Ctx) {
 		x := chain.NewExplorer(c, m, "C09")
 		x.Run()
 		x.Report(n + "/")
+		if !c.Expired() {
+			// block combinatorics: one setup block, then every ordered tuple of <= 2 (thorough 3) actions in one block, each with the
+			// same purity bundle
+			mc := *m
+			mc.Name, mc.Menu, mc.D, mc.K, mc.H, mc.StopWhenSpent = "combo", chain.ComboMenu, 2, vf.Pick(c, 2, 3), m.H-1, true
+			xc := chain.NewExplorer(c, &mc, "C09")
+			xc.Run()
+			xc.Report(n + "/combo/")
+		}
 	}
 	// (b)
 	shapes := buildShapes(c, keys)
